@@ -692,6 +692,14 @@ static void part_rays(vf::Run& R)
             continue;
         }
         R.tag("geometry:" + zoo[gi].name);
+        // surface types of the judged geometries (evidence that e.g. cx / cyc / kx are present)
+        for (auto const& u : env->input.universes)
+            if (auto const* unit = std::get_if<celeritas::UnitInput>(&u))
+                for (auto const& vs : unit->surfaces)
+                    R.tag(std::string("surface-type:")
+                          + celeritas::to_cstring(std::visit(
+                              [](auto const& sf) { return std::decay_t<decltype(sf)>::surface_type(); },
+                              vs)));
         double scale = env->scale();
         double tol = std::max(env->oracle->tol_abs(), env->oracle->tol_rel() * scale);
         Ctx c{R, *env, scale, 10 * tol, 100 * tol, tol};
@@ -1285,7 +1293,10 @@ static void part_ops(vf::Run& R)
     // geometries with nested (rotated / reflected / arrayed) universes and non-convex volumes
     std::vector<std::string> names = {"g3.0", "g3.1", "g3.2", "g3.3", "g3.4", "g4", "g5", "g1",
                                       "universes", "rect-array", "nested-rect-arrays",
-                                      "inputbuilder-hierarchy", "inputbuilder-universes"};
+                                      "inputbuilder-hierarchy", "inputbuilder-universes",
+                                      // A&(B|C) logic; x-/y-aligned cylinders and cones; array
+                                      // with a non-zero grid origin and alternating cell widths
+                                      "g6", "g7", "ra2x5x1"};
     auto zoo = vf::zoo_entries(true, true);
     // Direction alphabet for set_dir: near-axis and near-diagonal directions, tilted by a few
     // 1e-2 so that none is EXACTLY tangent to an axis-aligned (or 30/90-degree rotated) surface
